@@ -40,3 +40,16 @@ package s2
 //@   fpcmp
 //@   requires vcNoNaNPt(a0) && vcNoNaNPt(a1) && vcNoNaNPt(b0) && vcNoNaNPt(b1)
 //@   ensures [not-both] !(compareEdges(a0, a1, b0, b1) && compareEdges(b0, b1, a0, a1))
+
+//@ func intersectionStableSorted(a0, a1, b0, b1 Point) (Point, bool)
+//@   assumed "numerical core of the stable path; used as a deterministic function of its argument tuple"
+//@   pure
+
+// whichever way the two edges are passed, the stable path evaluates the numerical core on the same tuple
+//@ lemma intersectionStableSwap(a0 Point, a1 Point, b0 Point, b1 Point)
+//@   fpcmp
+//@   requires vcNoNaNPt(a0) && vcNoNaNPt(a1) && vcNoNaNPt(b0) && vcNoNaNPt(b1)
+//@   requires !vcIsNaN(a1.Sub(a0.Vector).Norm2()) && !vcIsNaN(b1.Sub(b0.Vector).Norm2())
+//@   requires a1.Sub(a0.Vector).Norm2() != b1.Sub(b0.Vector).Norm2() || compareEdges(a0, a1, b0, b1) || compareEdges(b0, b1, a0, a1)
+//@   ensures [same-point] vcSame(vcFirst(intersectionStable(a0, a1, b0, b1)), vcFirst(intersectionStable(b0, b1, a0, a1)))
+//@   ensures [same-ok] vcSecond(intersectionStable(a0, a1, b0, b1)) == vcSecond(intersectionStable(b0, b1, a0, a1))
